@@ -1,6 +1,7 @@
 import LZ4V.Proofs.BlockHub
 import LZ4V.Proofs.FastRProof
 import LZ4V.Proofs.FastSProof
+import LZ4V.Proofs.FastXProof
 /-!
 # C18 — compression contexts stay correct after any history of reuse (specification part)
 -/
@@ -87,5 +88,22 @@ theorem reused_stream_session_decodes_alone (hashOf : Array UInt8 → Bool → N
   have := LZ4V.Model.FastS.session_spec hashOf calls { tbl := tbl, currentOffset := currentOffset, dictSize := 0, mem := #[] }
     ⟨htbl, Nat.zero_le _, Nat.zero_le _⟩ k hk blk h
   simpa using this
+
+open LZ4V.Model.FastX in
+/-- **any history of streaming reuse** (Model/FastX.lean): whatever the stream did before — blocks placed anywhere, dictionary loads and saves,
+    failed-free lives ended by `LZ4_resetStream_fast` any number of times — a block compressed after a reset decodes against the bytes compressed
+    SINCE that reset alone (`histAt` restarts from nothing at every reset): nothing of an earlier life is ever referenced. -/
+theorem stream_reuse_decodes_since_reset_only (hashOf : Array UInt8 → Bool → Nat → Nat) (ops : List Op) (k addr : Nat) (data : Array UInt8) (acc : Int) (cap : Nat)
+    (blk : List UInt8) (hop : ops[k]? = some (.compress addr data acc cap)) (h : (run hashOf {} ops)[k]? = some (.block (some blk))) :
+    decode (histAt [] ops k) blk = some data.toList :=
+  (run_parsed hashOf ops {} [] JX_init (IsTail.refl _) k addr data acc cap blk hop h [] _ rfl (Or.inl rfl)).decode
+
+open LZ4V.Model.FastX in
+/-- the history restarts at a reset: whatever preceded it -/
+theorem history_restarts_at_reset (H : List UInt8) (before after : List Op) :
+    histAt H (before ++ .reset :: after) (before.length + 1) = [] := by
+  induction before generalizing H with
+  | nil => simp [histAt, hist]
+  | cons b bs ih => simpa [histAt] using ih (hist H b)
 
 end LZ4V.C18
